@@ -133,19 +133,20 @@ type Data struct {
 }
 
 type Module struct {
-	Types     []FuncType
-	Imports   []Import
-	Funcs     []Func
-	Tables    []Table
-	Mem       *Limits
-	Globals   []Global
-	Exports   []Export
-	Start     *uint32
-	Elems     []Elem
-	Datas     []Data
-	DataCount bool
-	Customs   []Custom
-	FuncNames map[uint32]string // emitted as a name section when non-nil
+	Types      []FuncType
+	Imports    []Import
+	Funcs      []Func
+	Tables     []Table
+	Mem        *Limits
+	Globals    []Global
+	Exports    []Export
+	Start      *uint32
+	Elems      []Elem
+	Datas      []Data
+	DataCount  bool
+	Customs    []Custom
+	FuncNames  map[uint32]string // emitted as a name section when non-nil
+	ModuleName string            // emitted in the name section (subsection 0) when non-empty
 }
 
 type Custom struct {
@@ -399,6 +400,13 @@ func (m *Module) Encode() []byte {
 		}
 		out = append(out, section(11, vec(len(m.Datas), b))...)
 	}
+	if m.ModuleName != "" && m.FuncNames == nil {
+		sub := name(m.ModuleName)
+		body := append(name("name"), 0)
+		body = append(body, ULEB(uint64(len(sub)))...)
+		body = append(body, sub...)
+		out = append(out, section(0, body)...)
+	}
 	if m.FuncNames != nil {
 		var sub []byte
 		// deterministic order
@@ -416,7 +424,14 @@ func (m *Module) Encode() []byte {
 			sub = append(sub, name(m.FuncNames[i])...)
 		}
 		sub = vec(len(idxs), sub)
-		body := append(name("name"), 1)
+		body := name("name")
+		if m.ModuleName != "" {
+			ms := name(m.ModuleName)
+			body = append(body, 0)
+			body = append(body, ULEB(uint64(len(ms)))...)
+			body = append(body, ms...)
+		}
+		body = append(body, 1)
 		body = append(body, ULEB(uint64(len(sub)))...)
 		body = append(body, sub...)
 		out = append(out, section(0, body)...)
@@ -489,13 +504,13 @@ func (a *Asm) ReturnCall(i uint32) *Asm { return a.Op(0x12).U(uint64(i)) }
 func (a *Asm) ReturnCallIndirect(typeIdx, table uint32) *Asm {
 	return a.Op(0x13).U(uint64(typeIdx)).U(uint64(table))
 }
-func (a *Asm) Drop() *Asm        { return a.Op(0x1a) }
-func (a *Asm) Select() *Asm      { return a.Op(0x1b) }
-func (a *Asm) Unreachable() *Asm { return a.Op(0x00) }
-func (a *Asm) Nop() *Asm         { return a.Op(0x01) }
-func (a *Asm) Return() *Asm      { return a.Op(0x0f) }
-func (a *Asm) End() *Asm         { return a.Op(0x0b) }
-func (a *Asm) Else() *Asm        { return a.Op(0x05) }
+func (a *Asm) Drop() *Asm         { return a.Op(0x1a) }
+func (a *Asm) Select() *Asm       { return a.Op(0x1b) }
+func (a *Asm) Unreachable() *Asm  { return a.Op(0x00) }
+func (a *Asm) Nop() *Asm          { return a.Op(0x01) }
+func (a *Asm) Return() *Asm       { return a.Op(0x0f) }
+func (a *Asm) End() *Asm          { return a.Op(0x0b) }
+func (a *Asm) Else() *Asm         { return a.Op(0x05) }
 func (a *Asm) Br(l uint32) *Asm   { return a.Op(0x0c).U(uint64(l)) }
 func (a *Asm) BrIf(l uint32) *Asm { return a.Op(0x0d).U(uint64(l)) }
 func (a *Asm) BrTable(labels []uint32, def uint32) *Asm {
@@ -507,9 +522,9 @@ func (a *Asm) BrTable(labels []uint32, def uint32) *Asm {
 }
 
 // BlockType: 0x40 empty, a ValType, or a type index (use BlockT for the latter).
-func (a *Asm) Block(bt byte) *Asm { return a.Op(0x02).Op(bt) }
-func (a *Asm) Loop(bt byte) *Asm  { return a.Op(0x03).Op(bt) }
-func (a *Asm) If(bt byte) *Asm    { return a.Op(0x04).Op(bt) }
+func (a *Asm) Block(bt byte) *Asm         { return a.Op(0x02).Op(bt) }
+func (a *Asm) Loop(bt byte) *Asm          { return a.Op(0x03).Op(bt) }
+func (a *Asm) If(bt byte) *Asm            { return a.Op(0x04).Op(bt) }
 func (a *Asm) BlockT(typeIdx uint32) *Asm { return a.Op(0x02).S(int64(typeIdx)) }
 func (a *Asm) LoopT(typeIdx uint32) *Asm  { return a.Op(0x03).S(int64(typeIdx)) }
 func (a *Asm) IfT(typeIdx uint32) *Asm    { return a.Op(0x04).S(int64(typeIdx)) }
@@ -524,7 +539,7 @@ func (a *Asm) MemorySize() *Asm { return a.Op(0x3f).Op(0) }
 func (a *Asm) MemoryGrow() *Asm { return a.Op(0x40).Op(0) }
 
 // Misc (0xfc) prefix
-func (a *Asm) Misc(sub uint32) *Asm { return a.Op(0xfc).U(uint64(sub)) }
+func (a *Asm) Misc(sub uint32) *Asm       { return a.Op(0xfc).U(uint64(sub)) }
 func (a *Asm) MemoryInit(seg uint32) *Asm { return a.Misc(8).U(uint64(seg)).Op(0) }
 func (a *Asm) DataDrop(seg uint32) *Asm   { return a.Misc(9).U(uint64(seg)) }
 func (a *Asm) MemoryCopy() *Asm           { return a.Misc(10).Op(0).Op(0) }
@@ -556,13 +571,13 @@ func (a *Asm) AtomicMem(sub uint32, align uint32, offset uint64) *Asm {
 }
 
 // ConstExpr helpers (without trailing end)
-func CI32(v int32) []byte       { return (&Asm{}).I32Const(v).B }
-func CI64(v int64) []byte       { return (&Asm{}).I64Const(v).B }
-func CF32(bits uint32) []byte   { return (&Asm{}).F32Const(bits).B }
-func CF64(bits uint64) []byte   { return (&Asm{}).F64Const(bits).B }
-func CGlobal(i uint32) []byte   { return (&Asm{}).GlobalGet(i).B }
-func CRefFunc(i uint32) []byte  { return (&Asm{}).RefFunc(i).B }
-func CRefNull(t ValType) []byte { return (&Asm{}).RefNull(t).B }
+func CI32(v int32) []byte        { return (&Asm{}).I32Const(v).B }
+func CI64(v int64) []byte        { return (&Asm{}).I64Const(v).B }
+func CF32(bits uint32) []byte    { return (&Asm{}).F32Const(bits).B }
+func CF64(bits uint64) []byte    { return (&Asm{}).F64Const(bits).B }
+func CGlobal(i uint32) []byte    { return (&Asm{}).GlobalGet(i).B }
+func CRefFunc(i uint32) []byte   { return (&Asm{}).RefFunc(i).B }
+func CRefNull(t ValType) []byte  { return (&Asm{}).RefNull(t).B }
 func CV128(lo, hi uint64) []byte { return (&Asm{}).V128Const(lo, hi).B }
 
 func F32Bits(f float32) uint32 { return math.Float32bits(f) }
